@@ -813,3 +813,71 @@ func (w *world) allConfigs() []config.Config {
 	}
 	return out
 }
+
+// ---------------------------------------------------------------------------------------
+// "pile" stratum: many rules in one virtual host. Two or three VirtualServices with the SAME host
+// bound to the SAME gateway (the operations guide's "split large virtual services": they are
+// merged into one virtual host), or one big mesh VirtualService; 5-9 rules each, most of them
+// plain uri prefix/exact matches from a small nested pool so that several rules of one
+// VirtualService match the same request and only their ORDER decides; a rule without match
+// (catch-all) usually closes the older VirtualServices, so that it sits in the middle of the
+// merged list.
+
+var pilePathPool = []string{"/api", "/api/v1", "/api/v1/orders", "/api/v1/orders/item", "/api/v1/users", "/api/v2", "/static", "/static/img", "/static/img/large",
+	"/a", "/a/b", "/a/b/c", "/health", "/admin", "/admin/panel"}
+
+func genPile(r *rand.Rand, w *world) []*vsDef {
+	var out []*vsDef
+	ns := pick(r, namespaces)
+	cx := &vsCtx{w: w, ns: ns}
+	var hosts, gateways []string
+	if chance(r, 75) {
+		g := w.Gateways[0]
+		gateways = []string{g.NS + "/" + g.Name}
+		sh := boundServerHosts(w, gateways, ns)
+		h := "shop.example.org"
+		if len(sh) > 0 {
+			h = pick(r, sh)
+			if strings.HasPrefix(h, "*") {
+				h = concretiseHost(r, w, h, ns)
+			}
+		}
+		hosts = []string{h}
+	} else {
+		cx.meshOnly, cx.hasMesh = true, true
+		hosts = []string{pick(r, w.Services).Host}
+	}
+	cx.gateways, cx.hosts = gateways, hosts
+	nvs := 2 + r.Intn(2)
+	if cx.meshOnly {
+		nvs = 1
+	}
+	for k := 0; k < nvs; k++ {
+		vs := &networking.VirtualService{Hosts: hosts, Gateways: gateways}
+		nr := 5 + r.Intn(5)
+		if cx.meshOnly {
+			nr = 9 + r.Intn(8)
+		}
+		for i := 0; i < nr; i++ {
+			h := genRule(r, cx, i, false)
+			if chance(r, 75) {
+				// plain nested path match: order among the rules of this VirtualService decides
+				p := pick(r, pilePathPool)
+				sm := &networking.StringMatch{MatchType: &networking.StringMatch_Prefix{Prefix: p}}
+				if chance(r, 25) {
+					sm = &networking.StringMatch{MatchType: &networking.StringMatch_Exact{Exact: p}}
+				}
+				h.Match = []*networking.HTTPMatchRequest{{Uri: sm}}
+				if chance(r, 20) {
+					h.Match[0].Headers = map[string]*networking.StringMatch{pick(r, headerNames): genStringMatch(r, headerValues, valRegexPool, false)}
+				}
+			}
+			if i == nr-1 && chance(r, 70) {
+				h.Match = nil // closing catch-all
+			}
+			vs.Http = append(vs.Http, h)
+		}
+		out = append(out, &vsDef{Name: fmt.Sprintf("pile-%d", k), NS: ns, Seq: k, Spec: vs})
+	}
+	return out
+}
